@@ -221,6 +221,41 @@ func runC12(r *core.Run) {
 			return core.Outcome{Class: fmt.Sprint("items=", min(len(want), 3)), Nontrivial: len(want) >= 2, Evals: evals}
 		})
 
+	core.Clause(r, "panic-boundary-pairs", core.Opts{Rule: "all 65536 two-byte strings (this includes every well-formed 2-byte UTF-8 sequence), alone and between A and C, plus 3- and 4-byte UTF-8 sequences whose code point mod 256 is a base letter: ReverseComplement and ReverseComplementString agree and panic iff some BYTE is outside the alphabet; non-trivial = all"},
+		func(emit func(c12Seq) bool) {
+			for a := 0; a < 256; a++ {
+				for b := 0; b < 256; b++ {
+					if !emit(c12Seq{core.S([]byte{byte(a), byte(b)}), 0}) || !emit(c12Seq{core.S([]byte{'A', byte(a), byte(b), 'C'}), 0}) {
+						return
+					}
+				}
+			}
+			for _, cp := range []rune{0x141, 0x167, 0x841, 0x1F441, 0x10041, 0x2028} {
+				emit(c12Seq{core.S("AC" + string(cp) + "GT"), 0})
+			}
+		},
+		func(c c12Seq) core.Outcome {
+			src := c.Seq.B()
+			want, ok := ref.RevComp(src)
+			var got []byte
+			var gotS string
+			p1 := catch(func() { got = sequtil.ReverseComplement(nil, src) })
+			p2 := catch(func() { gotS = sequtil.ReverseComplementString(string(src)) })
+			if ok {
+				if p1 != "" || p2 != "" || !bytes.Equal(got, want) || gotS != string(want) {
+					return core.Failf("revcomp(%q): bytes variant %q (panic %q), string variant %q (panic %q), want %q", src, got, p1, gotS, p2, want)
+				}
+				return core.OK("accepted", true)
+			}
+			if p1 == "" {
+				return core.Failf("ReverseComplement(%q) did not panic (returned %q)", src, got)
+			}
+			if p2 == "" {
+				return core.Failf("ReverseComplementString(%q) did not panic (returned %q)", src, gotS)
+			}
+			return core.Outcome{Class: "panics", Nontrivial: true, Evals: 2}
+		})
+
 	core.Clause(r, "revcomp-long", core.Opts{Rule: "position-dependent sequences over the 10-letter alphabet of every length 0..300 and 1000, 4095..4097, 65535..65537 x 3 dst variants; non-trivial = all"},
 		func(emit func(c12Seq) bool) {
 			var lens []int
